@@ -31,6 +31,7 @@ import I3.Gen.GoChkFFGLimb
 import I3.Gen.GoPoseidonLimb
 import I3.Gen.GoMimc7Limb
 import I3.Gen.GoBabyjubLimb
+import I3.Gen.GoGoldenLimb
 open I3 I3.Gen.Go
 
 def parseInt? (s : String) : Option Int := s.toInt?
@@ -473,6 +474,12 @@ def limbTwinOp (op : String) (_pat : String) (args : List String) : Option Strin
   | "mimc7.hashbytes", [b] =>
     match mimc7l_HashBytes (← parseBytes? b) with
     | (r, none) => pure (toString r)
+    | (_, some e) => pure (classifyErr e)
+  -- package goldenposeidon through its limb twin (`I3.Gen.GoGoldenLimb`: an `ffg.Element` is its ONE Montgomery limb,
+  -- arithmetic = the T2 kernels of ffg, tables = `goldenposeidonl_init`, the limb twin of `init()` itself)
+  | "golden.hash", [inp, cap] =>
+    match goldenposeidonl_Hash (← parseNatList? inp) (← parseNatList? cap) with
+    | (r, none) => pure (showList toString r)
     | (_, some e) => pure (classifyErr e)
   -- package babyjub through its limb twins (`I3.Gen.GoBabyjubLimb`: projective addition, double-and-add, the
   -- conversion back with `ffl_inverse`, and the EdDSA entry points above them; hashes = the limb twins above)
